@@ -31,7 +31,13 @@ for line in (V / 'properties.jsonl').read_text().splitlines():
         avoid = ('Changes of the following kinds were already produced by earlier seeders; yours must be DIFFERENT in root cause and in what they need to manifest (other functions / other mechanisms of the property):\n'
                  + ''.join(f'  - {c}\n' for c in used[pid]) + '\n')
     extra = SHAPELY if pid in ('C04', 'C05') else ''
-    if rnd == '5':
+    if rnd == '8':
+        extra += ('\nTIME-BOXED ROUND: produce only ONE change (out/mut1 only; ignore every instruction about a second change) and finish within about 12 minutes of work - pick an idea quickly, '
+                  'run the suite once, write the demo, done. Avoid memoisation / stale-cache ideas, dtype slips, aliasing of returned objects, and anything similar to the list above. Prefer: two cooperating sites '
+                  'that each look fine alone (a producer and a consumer that must agree on a unit, an order, an inclusive/exclusive end, a default); a fault or exception at one particular point that leaves '
+                  'something half-done; a condition that only matters on the second or later step of a multi-step sequence; an unusual but legal input value (negative, zero, exactly on a threshold, very large, '
+                  'reversed order, duplicate entries, southern/western hemisphere, polar or antimeridian positions).\n')
+    elif rnd == '5':
         extra += '\nIn this round avoid memoisation / stale-cache ideas and anything similar to the list above. Prefer: an error/exception path that leaves something half-done or reports the wrong thing; a numerical slip (precision, dtype, unit, sign, rounding direction, degrees vs radians, inclusive vs exclusive) confined to one branch or one range of values; an argument order or default-value change that only matters for a non-default call; a condition that is right for scalars but wrong for arrays (or the reverse).\n'
     elif rnd == '7':
         extra += ('\nIn this round avoid memoisation / stale-cache ideas, dtype slips, and anything similar to the list above. Prefer: aliasing (a returned object '
